@@ -1320,11 +1320,16 @@ impl<'source> Parser<'source> {
 
         let local_count = function_frame.local_count();
 
+        // The set's iteration order depends on the random state of its hasher,
+        // so the ids get sorted to ensure that the same source always produces the same output.
+        let mut accessed_non_locals = AstVec::from_iter(function_frame.accessed_non_locals);
+        accessed_non_locals.sort_unstable_by_key(|id| u32::from(*id));
+
         self.push_node_with_start_span(
             Node::Function(Function {
                 args,
                 local_count,
-                accessed_non_locals: AstVec::from_iter(function_frame.accessed_non_locals),
+                accessed_non_locals,
                 body,
                 is_generator: function_frame.contains_yield,
             }),
